@@ -12,7 +12,7 @@ from vlib.pipes import OPS, op_names
 from vlib.values import NAMES, val
 from vlib.relsub import INF, Diverged, DProbe, OBuilder, TLab, all_inners, gw_index, live_during, release_deadline, slot_index
 
-from props.C02 import cases, cases_forced, cases_inner, recursion_seen
+from props.C02 import cases, cases_forced, cases_gbu, cases_inner, make_gbu, recursion_seen
 
 PROPERTY_ID = "C03"
 LEVEL = "exploration"
@@ -92,6 +92,8 @@ def run_variant(case, variant, make):
     except (RecursionError, Diverged):
         lab.inconclusive = "recursion"
         return lab, holder.get("p")
+    if lab.inconclusive:
+        return lab, p
     if kind == "mid":
         lab.at(variant[1], disposer)
     elif kind == "last":
@@ -189,12 +191,13 @@ def judge(case, variant, lab, p, pc, G):
         if S is not None and s.owner <= S:
             cont_used.add("subscribe_on")  # released by a scheduled action of this instant; (d) bounds its release
             continue
-        if (s.name, i) in p.in_progress:
-            # its subscribe() had not returned when dispose() was called: nobody held a handle yet; it must go
-            # as soon as the synchronous stack unwinds
+        if (s.name, i) in p.in_progress or p.subscribing:
+            # a subscribe() call (of this source, or of an operator that already subscribed it and has not yet
+            # returned its own disposable) was on the stack when dispose() was called from a callback: nobody held
+            # the handle yet; it must go before the synchronous stack has unwound
             us = s.sub_seq[i][1]
             if us is None or not lab.in_window(ds, us):
-                return label, fail("open-after-dispose", s.owner, f"source {s.name} subscription #{i} {s.subs[i]} (subscribe() in progress at dispose) not closed when the stack unwound")
+                return label, fail("open-after-dispose", s.owner, f"source {s.name} subscription #{i} {s.subs[i]} (a subscribe() was in progress at dispose) not closed when the stack unwound")
             cont_used.add("subscribe-in-progress")
             continue
         return label, fail("open-after-dispose", s.owner, f"source {s.name} subscription #{i} {s.subs[i]} still open right after dispose() returned")
@@ -222,7 +225,7 @@ def judge(case, variant, lab, p, pc, G):
 
 
 def dispose_points(lab0, p0):
-    E = set(lab0.ticks) | {0}
+    E = {t for t in lab0.ticks if t < 100} | {0}  # 100/200/1000 are TestScheduler.start()'s own create/subscribe/dispose actions
     term = p0.terminal()
     hi = (term[0] + 1) if term is not None else (max(E) + 1)
     pts = sorted(t for t in E if t <= hi)
@@ -270,6 +273,11 @@ def run_case(case, make, pc):
 def _run(case):
     pc = case["pipe"]
     return run_case(case, lambda lab: OBuilder(lab).build(pc), pc)
+
+
+def _run_gbu(case):
+    """group_by_until whose duration observable is derived from the group it is given (see props/C02.py)."""
+    return run_case(case, make_gbu(case), case["pipe"])
 
 
 # ---------------------------------------------------------------------------------------
@@ -348,8 +356,9 @@ def _factory_cases():
 def checks(tier):
     q = tier == "quick"
     return [
-        Check("pipelines", _run, strategy=cases(4 if q else 6), examples={"quick": 320, "thorough": 16 * 1000}, shards={"quick": 8, "thorough": 16}),
-        Check("inners", _run, strategy=cases_inner(4 if q else 6), examples={"quick": 320, "thorough": 16 * 1000}, shards={"quick": 8, "thorough": 16}),
-        Check("enders", _run, strategy=cases_forced(3 if q else 5), examples={"quick": 200, "thorough": 16 * 500}, shards={"quick": 8, "thorough": 16}),
+        Check("pipelines", _run, strategy=cases(4 if q else 6), examples={"quick": 320, "thorough": 16 * 2000}, shards={"quick": 8, "thorough": 16}),
+        Check("inners", _run, strategy=cases_inner(4 if q else 6), examples={"quick": 320, "thorough": 16 * 2000}, shards={"quick": 8, "thorough": 16}),
+        Check("enders", _run, strategy=cases_forced(3 if q else 5), examples={"quick": 200, "thorough": 16 * 1000}, shards={"quick": 8, "thorough": 16}),
+        Check("gbu_self", _run_gbu, strategy=cases_gbu(), examples={"quick": 120, "thorough": 16 * 1000}, shards={"quick": 8, "thorough": 16}),
         Check("factories", _run_factories, strategy=_factory_cases(), examples={"quick": 200, "thorough": 16 * 1000}, shards={"quick": 8, "thorough": 16}),
     ]
